@@ -97,3 +97,33 @@ func VerifH_C19_HitPath() {
 	// the old entry is still usable unless it expired / was replaced by a good refresh
 	_ = callsAfterFirst
 }
+
+// VerifH_C19_RefreshReplaces: what the background refresh does with its result: a successful (NOERROR) response –
+// with answer records or record-less (NODATA) – stored over a live positive entry of either kind replaces it, so
+// that later hits see the renewed data; an error response does not (C08).
+func VerifH_C19_RefreshReplaces() {
+	verifrt.Unwind(60)
+	r := vRouter(nil, true)
+	c := r.cache
+	old, _ := vTTLResp("old", verifrt.Choose("old.records", 2), false)
+	fresh, _ := vTTLResp("new", verifrt.Choose("new.records", 2), false)
+	verifrt.Assume(!old.Header.Truncated && old.Header.RCode == 0 && !fresh.Header.Truncated)
+	old.Header.AuthenticData, fresh.Header.AuthenticData = false, true // tells the two apart
+	fresh.Questions[0].Name[1] = old.Questions[0].Name[1]
+	q := old.Questions[0].Copy()
+	c.Store(q, netip.Addr{}, old)
+	c.Store(q, netip.Addr{}, fresh)
+	rc := getRequestContext()
+	m, _, _ := c.Get(context.Background(), q, rc)
+	if m == nil {
+		verifrt.Reach("expired") // the clock is arbitrary: the entry may have run out meanwhile
+		return
+	}
+	verifrt.Reach("hit")
+	if fresh.Header.RCode == 0 {
+		verifrt.Reach("refreshed")
+		verifrt.Assert(m.Header.AuthenticData && len(m.Answers) == len(fresh.Answers), "a successful refresh replaces the entry: later hits see the renewed response")
+	} else {
+		verifrt.Assert(!m.Header.AuthenticData && len(m.Answers) == len(old.Answers), "an error response leaves the positive entry in place")
+	}
+}
